@@ -2529,6 +2529,8 @@ class TensorSym(SymObject):
 
     def is_zero(self, *a, **k):
         # for arguments in general position a contraction is zero exactly when it vanishes identically
+        if not isinstance(self.array, Table):
+            raise Unknown("is_zero of a tensor whose coordinates are not read")
         return all(x.is_zero() for x in self.array.data.values())
 
 
